@@ -11,7 +11,7 @@ from collections import Counter
 from concurrent.futures import ProcessPoolExecutor, as_completed
 import multiprocessing
 
-RUN_TIMEOUT_S = 60
+RUN_TIMEOUT_S = 120
 
 
 def _child_main(fn, args, wfd):
